@@ -9,6 +9,7 @@
    Every walker theorem holds for EVERY matcher [gm]; the witnesses use [glob_matches]. *)
 From Coq Require Import List Bool NArith Permutation Lia.
 From XV Require Import Glob.Match Glob.Pattern Glob.Proofs Walker.Model Walker.Proofs Walker.Special Gen.CommonIgnore.
+(* (Glob/LastComponent.v, the proof about the matcher, is used through Walker/Special.v) *)
 Import ListNotations.
 Open Scope N_scope.
 
@@ -219,24 +220,33 @@ Proof.
   specialize (E Hin eq_refl). vm_compute in E. discriminate E.
 Qed.
 
-(* Proved outside the known class [whitelists_special] (boolean), for every matcher that finds a last
-   component ([matcher_finds_last_component], Walker/Special.v) -- this hypothesis about the matcher is
-   what keeps the theorem "_partial": for the transliterated fast-glob matcher it is evaluated on sample
-   paths below and tested by the glob correspondence, not proved for all paths. *)
-Theorem never_enters_xvc_git_partial gm fixed ign ch x p n r :
+(* Proved outside the known class [whitelists_special] (boolean).  For the transliterated fast-glob
+   matcher the needed fact -- "**/<name>" matches every string that ends in "/<name>" -- is itself a
+   theorem about Glob/Match.v (Glob/LastComponent.v: the globstar loop walks from component to component
+   and the literal comparison succeeds on the last one, within the default fuel). *)
+Theorem matcher_finds_xvc_git : matcher_finds_last_component glob_matches.
+Proof. exact glob_matches_finds_last_component. Qed.
+
+Theorem never_enters_xvc_git fixed ign ch x p n r :
+  whitelists_special glob_matches fixed ign ch = false ->
+  In x (spec_walk glob_matches fixed common_ignore_patterns ign ch) -> x = p ++ n :: r -> is_special n = false.
+Proof. exact (never_enters_xvc_git_glob_lemma fixed ign ch x p n r). Qed.
+
+Theorem par_never_enters_xvc_git ign ch nth sched x p n r :
+  wf_tree (Dir ign ch) = true -> (1 <= nth)%nat ->
+  whitelists_special glob_matches true ign ch = false ->
+  final (par_walk glob_matches true nth common_ignore_patterns ign ch sched) = true ->
+  In x (c_out (par_walk glob_matches true nth common_ignore_patterns ign ch sched)) -> x = p ++ n :: r -> is_special n = false.
+Proof.
+  exact (fun Hwf Hn => par_never_enters_xvc_git_glob_lemma true ign ch nth sched x p n r Hwf
+                         (local_of_fixed glob_matches true ign ch Hwf eq_refl) Hn).
+Qed.
+
+(* the same for any other matcher that finds a last component *)
+Theorem never_enters_xvc_git_any_matcher gm fixed ign ch x p n r :
   matcher_finds_last_component gm -> whitelists_special gm fixed ign ch = false ->
   In x (spec_walk gm fixed common_ignore_patterns ign ch) -> x = p ++ n :: r -> is_special n = false.
 Proof. exact (never_enters_xvc_git_lemma gm fixed ign ch x p n r). Qed.
-
-Theorem par_never_enters_xvc_git_partial gm ign ch nth sched x p n r :
-  wf_tree (Dir ign ch) = true -> (1 <= nth)%nat ->
-  matcher_finds_last_component gm -> whitelists_special gm true ign ch = false ->
-  final (par_walk gm true nth common_ignore_patterns ign ch sched) = true ->
-  In x (c_out (par_walk gm true nth common_ignore_patterns ign ch sched)) -> x = p ++ n :: r -> is_special n = false.
-Proof.
-  exact (fun Hwf Hn => par_never_enters_xvc_git_lemma gm true ign ch nth sched x p n r Hwf
-                         (local_of_fixed gm true ign ch Hwf eq_refl) Hn).
-Qed.
 
 (* ---- 6. the queue discipline terminates ------------------------------------------------------------------------ *)
 (* [mu c] bounds the number of steps any schedule can take from c; a non-final configuration always has
@@ -271,6 +281,9 @@ Check par_walk_deterministic_outside_P17 : forall gm fixed globals ign ch, wf_tr
 Check serial_eq_spec : forall gm globals ign ch, wf_tree (Dir ign ch) = true ->
   exists out, serial_walk gm true (S (dir_count (Dir ign ch))) globals ign ch = Some out /\
               Permutation out (spec_walk gm true globals ign ch) /\ NoDup out.
+Check never_enters_xvc_git : forall fixed ign ch x p n r,
+  whitelists_special glob_matches fixed ign ch = false ->
+  In x (spec_walk glob_matches fixed common_ignore_patterns ign ch) -> x = p ++ n :: r -> is_special n = false.
 Check par_walk_terminates : forall gm fixed c,
   exists sched, final (par_run gm fixed c sched) = true /\ (length sched <= mu c)%nat.
 
@@ -300,8 +313,8 @@ Example ex3_ignored_dir :
   forallb (fun x => match x with n :: _ => negb (bytes_eqb n s_xvc) | [] => true end)
           (spec_walk glob_matches true common_ignore_patterns ex3_ign ex3_ch) = true.
 Proof. vm_compute. split; reflexivity. Qed.
-(* the matcher hypothesis of [never_enters_xvc_git_partial], evaluated: "**/.xvc" and "**/.git" match the
-   last component at depths 1..4 (also next to look-alike names) *)
+(* [matcher_finds_xvc_git], evaluated: "**/.xvc" and "**/.git" match the last component at depths 1..4
+   (also next to look-alike names) *)
 Example matcher_sample :
   forallb (fun p => glob_matches (c_star :: c_star :: c_slash :: xvc_dir_name) (render (p ++ [xvc_dir_name]))
                     && glob_matches (c_star :: c_star :: c_slash :: git_dir_name) (render (p ++ [git_dir_name])))
@@ -331,8 +344,10 @@ Print Assumptions serial_eq_parallel.
 Print Assumptions ignored_dir_hides_subtree.
 Print Assumptions par_ignored_dir_hides_subtree.
 Print Assumptions never_enters_xvc_git_refuted.
-Print Assumptions never_enters_xvc_git_partial.
-Print Assumptions par_never_enters_xvc_git_partial.
+Print Assumptions matcher_finds_xvc_git.
+Print Assumptions never_enters_xvc_git.
+Print Assumptions par_never_enters_xvc_git.
+Print Assumptions never_enters_xvc_git_any_matcher.
 Print Assumptions par_walk_steps_bounded.
 Print Assumptions par_walk_progress.
 Print Assumptions par_walk_terminates.
